@@ -173,7 +173,7 @@ def base(draw):
         if kind == 'bool':
             n = min(n, 2)
         labels = draw(gen.flat_labels(n, kind))
-        route = draw(st.sampled_from(['ctor', 'from_labels', 'generator', 'array']))
+        route = draw(st.sampled_from(['ctor', 'from_labels', 'generator', 'array', 'ctor_dtype']))
         return {'kind': kind, 'labels': labels, 'route': route, 'go': go}
     if kind == 'auto':
         return {'kind': 'auto', 'labels': list(range(n)), 'route': 'series', 'go': False}
@@ -257,6 +257,13 @@ def construct(b):
         return cls.from_labels(labels)
     if route == 'generator':
         return cls(x for x in labels)
+    if route == 'ctor_dtype':
+        # the labels given in another form together with the dtype they are to have (what the dtype makes of them are the labels)
+        if kind == 'int':
+            return cls([str(x) for x in labels], dtype=np.int64)
+        if kind == 'str':
+            return cls(list(labels), dtype=str)
+        return cls(labels)
     if kind == 'date':
         return cls(np.array(labels, dtype='M8[D]'))
     return cls(np.array(labels))
